@@ -10,10 +10,11 @@ var workerBusy atomic.Bool
 
 // ShrinkJob asks a worker to minimise the choice list of a failing run.
 type ShrinkJob struct {
-	Spec     RunSpec `json:"spec"`
-	Property string  `json:"property"`
-	Kind     string  `json:"kind"`
-	BudgetMs int     `json:"budget_ms"`
+	Spec     RunSpec           `json:"spec"`
+	Property string            `json:"property"`
+	Kind     string            `json:"kind"`
+	Detail   map[string]string `json:"detail,omitempty"`
+	BudgetMs int               `json:"budget_ms"`
 }
 
 // ShrinkResult is the minimised run.
@@ -25,13 +26,21 @@ type ShrinkResult struct {
 	From     int        `json:"from"`
 }
 
-func hasViolation(out *RunOutput, prop, kind string) bool {
+func hasViolation(out *RunOutput, prop, kind string, detail map[string]string) bool {
 	if out == nil || out.Infra != "" {
 		return false
 	}
 	for _, v := range out.Violations {
 		if (v.Property == prop || v.Property == "*" || prop == "*") && v.Kind == kind {
-			return true
+			same := true
+			for k, want := range detail {
+				if v.Detail[k] != want {
+					same = false
+				}
+			}
+			if same {
+				return true
+			}
 		}
 	}
 	return false
@@ -57,7 +66,7 @@ func RunShrink(t *testing.T, job *ShrinkJob) *ShrinkResult {
 		workerBusy.Store(true)
 		out := RunOne(t, spec)
 		workerBusy.Store(false)
-		if hasViolation(out, job.Property, job.Kind) {
+		if hasViolation(out, job.Property, job.Kind, job.Detail) {
 			res.Accepted++
 			// the run may have consumed fewer choices than provided
 			if out.NChoices < len(cand) {
@@ -153,7 +162,7 @@ func RunShrink(t *testing.T, job *ShrinkJob) *ShrinkResult {
 	workerBusy.Store(true)
 	out := RunOne(t, spec)
 	workerBusy.Store(false)
-	if hasViolation(out, job.Property, job.Kind) {
+	if hasViolation(out, job.Property, job.Kind, job.Detail) {
 		best = out
 	}
 	res.Choices = cur
